@@ -187,7 +187,7 @@ def execute(spec, props=None):
             forced_values = list(forced["values"])
         else:
             # two passes: the first records the masses a_k - a_0 of the natural run, the second forces the tie
-            out1 = genrun.run_molecule(text, sched, props=(), embed="stub", cap_mass=spec.get("cap_mass"), wall=60, ast=ast,
+            out1 = genrun.run_molecule(text, sched, props=(), embed="stub", cap_mass=spec.get("cap_mass"), wall=150, ast=ast,
                                        entry=spec.get("entry", "molecule"), pre_generate_seed=spec.get("mirror_pre"))
             if out1.harness_error:
                 return {"harness_error": out1.harness_error, "violations": []}
@@ -221,7 +221,7 @@ def execute(spec, props=None):
         ab = spec["abort_first"]
         sk0 = {"seed": ab["seed"], "choice_policy": "uniform_support", "draw_policy": "natural", "script": None, "budget": 6000,
                "faults": {ab["at"]: ab["how"]}}
-        out0 = genrun.run_molecule(text, sk0, props=(), embed="stub", cap_mass=spec.get("cap_mass"), wall=60, ast=ast)
+        out0 = genrun.run_molecule(text, sk0, props=(), embed="stub", cap_mass=spec.get("cap_mass"), wall=150, ast=ast)
         if out0.harness_error:
             return {"harness_error": out0.harness_error, "violations": []}
         if out0.sched is not None and out0.sched.fired:
@@ -229,7 +229,7 @@ def execute(spec, props=None):
             reuse = out0.mol_obj
         stats["aborted_first_generations"] = 1
     out = genrun.run_molecule(text, sched, props=props, embed=spec.get("embed", "stub"), forced_draws=forced_values,
-                              cap_mass=spec.get("cap_mass"), wall=90, ast=ast, entry=spec.get("entry", "molecule"), reuse_obj=reuse,
+                              cap_mass=spec.get("cap_mass"), wall=200, ast=ast, entry=spec.get("entry", "molecule"), reuse_obj=reuse,
                               pre_generate_seed=spec.get("mirror_pre"))
     if out.harness_error:
         return {"harness_error": out.harness_error, "violations": []}
@@ -241,7 +241,7 @@ def execute(spec, props=None):
         sched2 = dict(sched)
         sched2["seed"] = spec["again"]
         sched2["script"] = None
-        out2 = genrun.run_molecule(text, sched2, props=props, embed="stub", cap_mass=spec.get("cap_mass"), wall=90, ast=ast,
+        out2 = genrun.run_molecule(text, sched2, props=props, embed="stub", cap_mass=spec.get("cap_mass"), wall=200, ast=ast,
                                    reuse_obj=out.mol_obj)
         stats["second_generations"] = 1
         if out2.harness_error:
